@@ -328,7 +328,16 @@ var ranges = []rangeDef{
 	// query interval, over both families up to the end of the second one / into the second one
 	{"unaligned-two-families", 30_000, 2*familyMs - 1},
 	{"unaligned-into-family2", 70_000, familyMs + (s0+1)*slotMs},
+	// only used by the scripted scenario compressed-window (special.go): ranges that start at / behind slots which the
+	// memory database has already moved from its write window into the compressed block of the series
+	{"from-prev", (s0 - 1) * slotMs, familyMs - 1},
+	{"from-same", s0 * slotMs, familyMs - 1},
+	{"from-next", (s0 + 1) * slotMs, familyMs - 1},
+	{"from-far", (s0 + 15) * slotMs, familyMs - 1},
+	{"same-to-next2", s0 * slotMs, (s0+2)*slotMs + 5000},
 }
+
+const windowRanges = 6 // index of "from-prev"
 
 // mainRanges / mainIntervals: what the enumerated menus use (the tables' tails belong to scripted scenarios).
 const (
